@@ -162,8 +162,13 @@ func runC04(e *core.Env) {
 				e.Probe("tag-then-fallback-tag(exempt)")
 				continue
 			}
-			e.Violation("tag-last", "write-after-tag:"+w.Kind, "after the requested tag %s was written (write #%d) the copy still wrote %s %s %s (write #%d)",
-				c.tgtTag, tagSeq, w.Kind, short(w.Digest), w.Tag, w.Seq)
+			fp, note := "write-after-tag:"+w.Kind, ""
+			if loopWrite(c.gr, journal, w) {
+				// a referrer that is an index over its own subject: ImageCopy postpones its copy until after everything else
+				fp, note = "write-after-tag:postponed-loop-referrer", " (belongs to a referrer that lists its own subject as a child)"
+			}
+			e.Violation("tag-last", fp, "after the requested tag %s was written (write #%d) the copy still wrote %s %s %s (write #%d)%s",
+				c.tgtTag, tagSeq, w.Kind, short(w.Digest), w.Tag, w.Seq, note)
 		}
 	}
 	finalDelivered := tagIdx >= 0
@@ -205,6 +210,48 @@ func runC04(e *core.Env) {
 			e.Violation("complete-after", "written-manifest-incomplete", "manifest %s written during the copy lacks %s at the end (err=%v)", short(d), strings.Join(miss, ", "), err)
 		}
 	}
+	// a caller that sees the copy fail tries again with the same client (its caches as the failed copy left
+	// them); the ordering invariant keeps being judged at every manifest the target accepts, and what the second
+	// copy writes must be complete as well. Not after process death (the client is gone) and not when a fault is
+	// still pending.
+	if err != nil && !(n.FreezeAt > 0) && (c.disk == nil || !c.disk.Frozen) && !e.Failed() {
+		before := len(wl)
+		if c.disk != nil {
+			simos.Use(c.disk)
+		}
+		c.watch()
+		simrt.Event("ImageCopy again with the same client")
+		err2 := rc.ImageCopy(context.Background(), s, t, c.opts...)
+		simrt.Event("second ImageCopy returned %v", err2)
+		drainTasks(e, 30)
+		if c.disk != nil {
+			c.disk.OnMutation = nil
+		}
+		e.Probe("retried-with-same-client")
+		if err2 == nil {
+			e.Probe("retry-succeeded")
+			if cur, has := tgtS.Tag(c.tgtTag); !has || !sameContent(tgtS, cur, c.gr.Root) {
+				e.Violation("tag", "retry-success-without-tag", "the repeated copy returned nil but the tag resolves to %q", cur)
+			}
+		}
+		wl = wl[:0]
+		for d := range written {
+			wl = append(wl, d)
+		}
+		sort.Strings(wl)
+		for _, d := range wl {
+			raw, _, ok := tgtS.Manifest(d)
+			if !ok {
+				continue
+			}
+			if miss := oracle.ContentComplete(tgtS, raw); len(miss) > 0 {
+				e.Violation("complete-after", "written-manifest-incomplete-after-retry", "manifest %s written during the failed or the repeated copy lacks %s at the end (first err=%v, second err=%v)", short(d), strings.Join(miss, ", "), err, err2)
+			}
+		}
+		if len(wl) > before {
+			e.Probe("retry-wrote-manifests")
+		}
+	}
 	e.Probe("pairing:" + c.pairing)
 	if positional {
 		switch {
@@ -234,9 +281,51 @@ func isFallbackWrite(journal []wev, w wev, subject string) bool {
 	}
 	if w.Kind == "manifest" {
 		for _, o := range journal {
-			if o.Seq == w.Seq && o.Kind == "tag" && o.Tag == ft {
+			// (on a registry the list is put by tag in one request; in a layout its file is renamed into place first)
+			if o.Kind == "tag" && o.Tag == ft && (o.Seq == w.Seq || o.Digest == w.Digest) {
 				return true
 			}
+		}
+	}
+	return false
+}
+
+// loopWrite: the graph has a referrer that lists its own subject as a child, and the write belongs to what
+// ImageCopy postpones because of it: that referrer, or - when the referrer list itself is copied as a digest-tag -
+// the whole list with every referrer in it, the content they bring along, and the referrer-list maintenance.
+func loopWrite(gr *gen.Graph, journal []wev, w wev) bool {
+	if !gr.Loop {
+		return false
+	}
+	inRoot := map[string]bool{}
+	gen.Walk(gr.Root, func(n *gen.Node) {
+		inRoot[n.Digest] = true
+		for _, b := range append(append([]*gen.Blob{}, n.Blobs...), n.BlobKids...) {
+			inRoot[b.Desc.Digest] = true
+		}
+	})
+	own := map[string]bool{}
+	var subjects []string
+	for _, r := range gr.Referrers {
+		subjects = append(subjects, r.Subject)
+		gen.Walk(r, func(n *gen.Node) {
+			subjects = append(subjects, n.Digest)
+			if !inRoot[n.Digest] {
+				own[n.Digest] = true
+			}
+			for _, b := range append(append([]*gen.Blob{}, n.Blobs...), n.BlobKids...) {
+				if !inRoot[b.Desc.Digest] {
+					own[b.Desc.Digest] = true
+				}
+			}
+		})
+	}
+	if own[w.Digest] && w.Kind != "tag" {
+		return true
+	}
+	for _, sd := range subjects {
+		if isFallbackWrite(journal, w, sd) {
+			return true
 		}
 	}
 	return false
